@@ -281,7 +281,12 @@ Definition status_code (st : status) : Z :=
 Definition dec_ev (z : Z) : ev :=
   if 0 <? z then Chunk z else if z =? 0 then Block else if z =? -1 then Eof else Err.
 
-(* args = n :: bytes(n) ++ schedule ; result = status :: #frames :: frames ++ rd ++ [#bytes left] *)
+(* a complete packet whose dispatch was postponed by the 100-reads early return is dispatched by the next call *)
+Definition flush_pending (r : rd) : list frame * rd :=
+  if complete r then ([(command r, packet r)], rd_init) else ([], r).
+
+(* args = n :: bytes(n) ++ schedule ;
+   result = status :: #frames :: frames (pending one included) ++ rd (after the pending one) ++ [#bytes left; #pending] *)
 Definition entry_read (args : list Z) : list Z :=
   match args with
   | [] => []
@@ -290,7 +295,9 @@ Definition entry_read (args : list Z) : list Z :=
       let sch := map dec_ev (drop n rest) in
       let s : sock := (bs, sch) in
       let '(fs, st, r, s') := sock_run (sock_fuel s) rd_init s in
-      status_code st :: Z.of_nat (length fs) :: enc_frames fs ++ enc_rd r ++ [Z.of_nat (length (fst s'))]
+      let '(pf, r') := match st with StProtocol => ([], r) | _ => flush_pending r end in
+      status_code st :: Z.of_nat (length (fs ++ pf)) :: enc_frames (fs ++ pf) ++ enc_rd r' ++
+      [Z.of_nat (length (fst s')); Z.of_nat (length pf)]
   end.
 
 (* args = bytes ; result = err :: #frames :: frames ++ rd ++ [#bytes unused] *)
